@@ -52,7 +52,13 @@ def check_step(rep, mod, fname, width, poly, reflected, where_note, state_bits=N
     L = data_loop(f)
     if L is None:
         raise AnalysisBroken('%s: no loop reading data bytes found' % fname)
-    b, ev, phis = eval_loop_body(mod, f, L)
+    from gf2 import TableNotAffine
+    try:
+        b, ev, phis = eval_loop_body(mod, f, L)
+    except TableNotAffine as e:
+        rep.inst('R-CRCSTEP', fname, 'step==definition(poly=0x%X,%s)' % (poly, 'lsb-first' if reflected else 'msb-first'),
+                 False, '%s:%d' % (f.file, f.line), e.detail())
+        return
     loads = [(i, v) for (i, v) in ev.loads if i.bits == 8]
     if len(loads) != 1:
         raise AnalysisBroken('%s: expected exactly one data byte load per iteration, found %d' % (fname, len(loads)))
@@ -171,7 +177,7 @@ def whole_rule(rep, mod, fname, width, poly, reflected, seed_name, data_name, le
                state_bits=None, lengths=(0, 1, 2, 3, 4, 5, 7, 8, 9)):
     """R-CRCWHOLE: for fixed small lengths the whole function, evaluated in the GF(2) domain with symbolic seed and
     symbolic data bytes, equals the definition folded over the bytes; control flow must not depend on the data"""
-    from gf2 import FuncEval, DataDependentBranch
+    from gf2 import FuncEval, DataDependentBranch, TableNotAffine
     f = mod.fn(fname)
     where = '%s:%d' % (f.file, f.line)
     names = [p['name'] for p in f.params]
@@ -193,6 +199,9 @@ def whole_rule(rep, mod, fname, width, poly, reflected, seed_name, data_name, le
             rep.inst('R-CRCWHOLE', fname, 'length=%d' % L, False, e.inst.where(),
                      'with length %d the control flow depends on the data or seed value (branch at %s): some inputs '
                      'take a path that does not apply the CRC definition' % (L, e.inst.where()))
+            continue
+        except TableNotAffine as e:
+            rep.inst('R-CRCWHOLE', fname, 'length=%d' % L, False, where, e.detail())
             continue
         bad_reads = [r for r in ev.reads if r[1] < 0 or r[1] + r[2] > L]
         if bad_reads:
@@ -273,7 +282,13 @@ def word_rule(rep, mod):
         ev = BlockEval(f, mod)
         for ph in [i for i in b.insts if i.op == 'phi' and i.ty.get('k') == 'int']:
             ev.env[('i', ph.id)] = BV.sym(ph.bits, 'phi:%s.' % (ph.name or ph.id))
-        ev.run_block(b)
+        from gf2 import TableNotAffine
+        try:
+            ev.run_block(b)
+        except TableNotAffine as e:
+            n += 1
+            rep.inst('R-CRCSTEP', 'igris_crc32', 'word-step:lookup-table', False, where, e.detail())
+            continue
         # result: last 32-bit value computed in the block that is used by a phi / outside
         outs = [i for i in b.insts if i.op == 'xor' and i.bits == 32]
         if not outs:
